@@ -10,6 +10,10 @@ CLAIMED = {
    text="Bounded model checking by symbolic execution of the real num package (go/ssa) with z3: for every exponent shape in the bound, the solver shows for ALL int64 values in the 2^52 domain that each operation returns the exact rational result rounded half away from zero at the documented precision. Layer 0 proves Rescale/Multiply/Divide (float64 + math.Round, sound real relaxation of binary64) against integer-only references; layer 1 proves the remaining operations with those three replaced by their proven specifications.",
    note="Assumes: go/ssa faithful to the source, z3 4.8.12 sound, float64 model is a sound over-approximation (DESIGN 3.2), operands/intermediates/results within 2^52 units (the property's domain). Bounds: exponents 0..4 quick / 0..9 thorough per operand; values unbounded within the domain.",
    ref="DESIGN.md 5 (C05), 3"),
+ "C06": dict(
+   text="Bounded model checking of the real amount/percentage text codec (AmountFromString, Unmarshal*, String, PercentageFromString, real strconv.ParseInt source) with z3: for every string of up to N arbitrary bytes the solver shows acceptance <=> membership in the published pattern (NFA built from the JSONSchema pattern, required equal to data/schemas/num/*.json) and that the value read is the denoted decimal; for every int64 x exponent 0..18 the written text matches the pattern and reads back; 17-20 digit strings cover the 64-bit boundary.",
+   note="Assumes go/ssa faithful, z3 sound, std-lib models (Sprintf, strconv digit formatting, strings.Index/Count) differential-tested; percentage reader also accepts the documented factor form and empty string. Bounds: strings <= 5 bytes quick / 8 thorough fully symbolic; long digit strings 17-20+0-2 digits. Known finding: MinInt64 printing.",
+   ref="DESIGN.md 5 (C06)"),
 }
 
 NA = {
